@@ -97,6 +97,7 @@ type SmellMethodTruth struct {
 	TopSwitches       int
 	Conds             []SmellCondTruth // one per top-level if, in source order
 	DecoyLines        []int            // lines on which a condition starts that is NOT a top-level if condition (nested if, else-if, while …)
+	ElseIfLines       []int            // of those, the lines on which the condition of an `else if` branch starts
 }
 
 // SmellClassTruth is one generated file (exactly one top-level type).
@@ -147,6 +148,13 @@ func smellFormCtx(m *SmellMethodTruth) string {
 		s += "/modifiers-on-previous-line(first=" + m.HeadFirst + ")"
 	}
 	return s
+}
+
+func smellElseIfCtx(m *SmellMethodTruth) string {
+	if len(m.ElseIfLines) > 0 {
+		return "/has-else-if-branches"
+	}
+	return ""
 }
 
 func smellCountNonGS(c *SmellClassTruth) int {
@@ -203,7 +211,7 @@ func SmellExpected(classes []SmellClassTruth) []SmellFinding {
 			}
 			if m.TopIfs >= SmellRepeatedT {
 				out = append(out, SmellFinding{File: c.File, Kind: SmellRepeatedSw, Line: line, Size: m.TopIfs, SizeAsserted: true,
-					Ctx: "ifs=" + smellOff(m.TopIfs, SmellRepeatedT) + smellFormCtx(m)})
+					Ctx: "ifs=" + smellOff(m.TopIfs, SmellRepeatedT) + smellElseIfCtx(m) + smellFormCtx(m)})
 			}
 			if m.TopSwitches >= SmellRepeatedT {
 				out = append(out, SmellFinding{File: c.File, Kind: SmellRepeatedSw, Line: line, Size: m.TopSwitches, SizeAsserted: true,
@@ -323,6 +331,11 @@ func smellSpuriousCtx(classes []SmellClassTruth, f SmellFinding) string {
 					return "line-of-if-keyword-not-of-condition"
 				}
 			}
+			for _, d := range m.ElseIfLines {
+				if d == ln {
+					return "condition-of-an-else-if-branch" + smellFormCtx(m)
+				}
+			}
 			for _, d := range m.DecoyLines {
 				if d == ln {
 					return "condition-is-not-a-top-level-if"
@@ -345,7 +358,11 @@ func smellSpuriousCtx(classes []SmellClassTruth, f SmellFinding) string {
 		case SmellLongParams:
 			return "params=" + smellParamCtx(m)
 		case SmellRepeatedSw:
-			return "ifs=" + smellOff(m.TopIfs, SmellRepeatedT) + ",switches=" + smellOff(m.TopSwitches, SmellRepeatedT) + smellFormCtx(m)
+			ctx := "ifs=" + smellOff(m.TopIfs, SmellRepeatedT) + ",switches=" + smellOff(m.TopSwitches, SmellRepeatedT)
+			if n := len(m.ElseIfLines); n > 0 {
+				ctx += "/else-if-branches=" + smellOff(m.TopIfs+n, SmellRepeatedT) + "-with-top-level-ifs"
+			}
+			return ctx + smellFormCtx(m)
 		}
 	}
 	for mi := range c.Methods {
